@@ -49,7 +49,7 @@ impl SrcProp {
             Which::C01 => &[Focus::Any, Focus::Code, Focus::Comments, Focus::Math, Focus::Prose, Focus::Breaks, Focus::Literals],
             Which::C03 => &[Focus::Comments, Focus::Breaks, Focus::Any, Focus::Code, Focus::Imports],
             Which::C04 => &[Focus::Comments, Focus::Code, Focus::Any, Focus::Math, Focus::Breaks],
-            Which::C06 => &[Focus::Comments],
+            Which::C06 => &[Focus::Comments, Focus::Comments, Focus::CommentsOff],
             Which::C07 => &[Focus::Code, Focus::Any, Focus::Math, Focus::Breaks],
             Which::C08 => &[Focus::Prose, Focus::Any],
             Which::C09 => &[Focus::Math],
@@ -365,6 +365,17 @@ impl Prop for SrcProp {
         }
         // C12 formats every case with all units 1..8
         env.known.excluded(self.id(), &c.src, &root, if self.which == Which::C12 { None } else { Some(&c.cfg) })
+    }
+
+    fn excluded_up_front(&self, c: &SrcCase, env: &Env) -> Option<String> {
+        // R1 (blanks at line ends inside multi-line strings / raw text): the trigger is precise (4 of 5
+        // inputs that contain it fail) and frequent, shrinking each of those would dominate the run
+        let id = if self.which == Which::C13 { "C01" } else { self.id() };
+        if !env.known.active(id).iter().any(|x| x == "R1") {
+            return None;
+        }
+        let root = syn::parse(&c.src);
+        crate::known::triggers(&c.src, &root).contains(&"R1").then(|| "R1".to_string())
     }
 
     fn check(&self, c: &SrcCase, env: &Env, st: &mut Stats) -> Verdict {
